@@ -94,8 +94,30 @@ func (p *Parser) ParseFile(filename string, varPool *VarPool) (*MetaData, []*Bui
 		}
 	}
 
+	// A previous output of this file is part of the loaded package. It must not take part in
+	// name pre-registration, otherwise regenerating over it picks different names than a clean run.
+	// The same holds for the outputs of the sibling source files: with one go:generate line per
+	// file, whether x_band.go already exists while y.go is processed depends on the run history.
+	previousOutputs := make(map[string]struct{}, len(pkg.Syntax))
 	for _, f := range pkg.Syntax {
 		if f == nil {
+			continue
+		}
+		if absFile, absErr := filepath.Abs(p.fset.Position(f.Package).Filename); absErr == nil {
+			previousOutputs[outputFileName(absFile)] = struct{}{}
+		}
+	}
+	isPreviousOutput := func(f *ast.File) bool {
+		absFile, absErr := filepath.Abs(p.fset.Position(f.Package).Filename)
+		if absErr != nil {
+			return false
+		}
+		_, ok := previousOutputs[absFile]
+		return ok
+	}
+
+	for _, f := range pkg.Syntax {
+		if f == nil || isPreviousOutput(f) {
 			continue
 		}
 
@@ -131,7 +153,7 @@ func (p *Parser) ParseFile(filename string, varPool *VarPool) (*MetaData, []*Bui
 	}
 
 	for _, f := range pkg.Syntax {
-		if f == nil {
+		if f == nil || isPreviousOutput(f) {
 			continue
 		}
 
